@@ -167,8 +167,8 @@ def configs(tier, shipped):
         tokens=TOK_BASE + ["/wap", "7"], na=4, terms_a={"\r\n"}, hdrs_a=[[], ["AW", "XP"]],
         famb=[dict(big, T={"\r\n", "\n"}, HK=KINDS, HN=2),
               dict(M={"GET", "HEAD", "x"}, S={" "}, P={"/wap", "/wapx", "/x", ""}, V={"HTTP/1.0", "0"}, T={"\r\n", "\n"},
-                   HK=KINDS, HN=4)],
-        csel={"", "x", "/x"}, cfields={"", "+", "!", "$", "+x", "!x", "x", " ", "$x", "x+", "_", "^"}, cn=4,
+                   HK=KINDS - {"NC"}, HN=4)],
+        csel={"", "x", "/x"}, cfields={"", "+", "!", "$", "+x", "!x", "x", " ", "$x", "x+", "_", "^"}, cn=3,
         terms_c={"\r\n", "\n", ""}, hdrs_c=[[], ["AW", "XP"]])
     orders = dict(
         lists=[list(shipped)] + subset_orders(shipped),
@@ -451,7 +451,7 @@ def _classify_input(line):
     return {"tab_fields": len(f), "last_tab_field_blank": len(f) >= 2 and f[-1] == ""}
 
 
-def report(chk, traces, tv, lists):
+def report(chk, traces, tv, cfgname, tier, lists):
     for rj in tv["rejected"]:
         t = traces[rj["index"]]
         key = "%s:%s" % (_case_key(t), rj["clause"])
@@ -462,9 +462,13 @@ def report(chk, traces, tv, lists):
             case.update(_classify_input(t["init"]["line"]))
             xs = [t["x"]["exc"]] + [e for e in t["x"]["alone_exc"] if e] + [e for e in t["x"]["orders_exc"] if e]
             case["exc"] = next((e for e in xs if e), None)
-            detail["lists"] = lists
+            case["config"], case["tier"] = cfgname, tier
+            detail["lists"] = lists if len(lists) <= 12 else "%d lists of configuration %s/%s" % (len(lists), tier, cfgname)
         chk.violation(key, rj["clause"], case, detail)
     chk.note_drift([dict(d, key=_case_key(traces[d["index"]])) for d in tv["drift"]])
+
+
+SLICE = 100000       # cases replayed and validated per round (bounds memory in the thorough tier)
 
 
 def lines_run(chk, name, c, shipped, conf_exprs, waptop, raises, tier, reps, only_case=None):
@@ -497,24 +501,43 @@ def lines_run(chk, name, c, shipped, conf_exprs, waptop, raises, tier, reps, onl
     if missing:
         raise core.MachineryError("C02: protocol classes not found in pygopherd.protocols: %s" % missing)
     exprs = {"lists": ["[%s]" % ", ".join(exprmap[p] for p in l) for l in c["lists"]], "listed": [exprmap[p] for p in listed]}
-    jobs = []
+    st = dict(answered={}, contested=set(), slurped=0, traces=0, accepted=0, rejected=0, trace_states=0, samples=[],
+              tv_cmd="", replay_s=0.0, validation_s=0.0)
     B = 400
-    for rep in reps:
-        for o in range(0, len(cases), B):
-            jobs.append((cases[o:o + B], rep, exprs))
-    if len(jobs) == 1:
-        outs = [run_batch(jobs[0])]
-    else:
-        outs = pool_map(run_batch, jobs, _init_worker)
-    traces = [t for o in outs for t in o]
-    for n, t in enumerate(traces):
-        t["id"] = "%s-%06d" % (name, n)
-    t2 = time.time()
-    tv = validate(traces, consts_text)
-    report(chk, traces, tv, c["lists"])
-    timing = {"tlc_s": res["wall_s"], "dump_parse_s": round(t1 - t0, 1), "replay_s": round(t2 - t1, 1),
-              "trace_validation_s": round(time.time() - t2, 1)}
-    return dict(res=res, cases=len(cases), fams=fams, traces=traces, tv=tv, listed=listed, consts=consts_text, timing=timing)
+    for o in range(0, len(cases), SLICE):
+        sl = cases[o:o + SLICE]
+        ta = time.time()
+        jobs = [(sl[b:b + B], rep, exprs) for rep in reps for b in range(0, len(sl), B)]
+        outs = [run_batch(jobs[0])] if len(jobs) == 1 else pool_map(run_batch, jobs, _init_worker)
+        traces = []
+        for job, out in zip(jobs, outs):
+            for cse, t in zip(job[0], out):
+                t["id"] = "%s-%07d" % (name, st["traces"] + len(traces))
+                traces.append(t)
+        tb = time.time()
+        tv = validate(traces, consts_text)
+        report(chk, traces, tv, name, tier, c["lists"])
+        st["replay_s"] += tb - ta
+        st["validation_s"] += time.time() - tb
+        for t in traces:
+            g = t["events"][0]["got"]
+            st["answered"][g] = st["answered"].get(g, 0) + 1
+            if sum(1 for r in t["events"][1]["r"] if r == "yes") >= 2:
+                st["contested"].add((t["init"]["line"], t["init"]["tls"], tuple(t["init"]["hdrs"])))
+            if t["events"][0]["pos"] > 0:
+                st["slurped"] += 1
+        if not st["samples"]:
+            st["samples"] = [{"id": t["id"], "init": t["init"], "bytes": t["x"]["bytes"], "events": t["events"]}
+                             for t in traces[:1] + traces[len(traces) // 2:len(traces) // 2 + 2]]
+        st["traces"] += len(traces)
+        st["accepted"] += tv["accepted"]
+        st["rejected"] += len(tv["rejected"])
+        st["trace_states"] += tv["states"]
+        st["tv_cmd"] = tv["cmd"] or st["tv_cmd"]
+        del traces, outs
+    timing = {"tlc_s": res["wall_s"], "dump_parse_s": round(t1 - t0, 1), "replay_s": round(st["replay_s"], 1),
+              "trace_validation_s": round(st["validation_s"], 1)}
+    return dict(res=res, cases=len(cases), fams=fams, st=st, listed=listed, consts=consts_text, timing=timing)
 
 
 def sniff_run(chk, consts_text, only_case=None):
@@ -535,7 +558,7 @@ def sniff_run(chk, consts_text, only_case=None):
     for n, t in enumerate(traces):
         t["id"] = "sniff-%04d" % n
     tv = validate(traces, consts_text)
-    report(chk, traces, tv, None)
+    report(chk, traces, tv, "sniff", "-", [])
     return dict(res=res, cases=len(cases), traces=traces, tv=tv)
 
 
@@ -569,36 +592,34 @@ def _main(chk, replay=None):
         elif c.get("kind") == "conn":
             only_conn = {"line": c["line"], "tls": c["tls"], "hdrs": c["hdrs"]}
             reps = [c.get("rep") or 0]
+            tier = c.get("tier") or tier
+            cfgs = configs(tier, shipped)
+            cfgs = {c.get("config", "main"): cfgs[c.get("config", "main")]}
         else:                                   # a model-level violation: re-run everything
             replay = None
     runs = {}
     if not (replay and only_sniff):
         for name, c in cfgs.items():
-            if replay and name != "main":
-                continue
             runs[name] = lines_run(chk, name, c, shipped, conf_exprs, waptop, raises, tier, reps, only_case=only_conn)
-    consts_text = consts_module(cfgs["main"], shipped, waptop, raises)[0]
+    consts_text = consts_module(configs("quick", shipped)["main"], shipped, waptop, raises)[0]
     sn = None
     if not (replay and only_conn):
         sn = sniff_run(chk, consts_text, only_case=only_sniff)
 
     # ---- measured coverage, vacuity guards ---------------------------------------------------------
-    conn = [t for r in runs.values() for t in r["traces"]]
     answered = {}
     contested = set()
-    for t in conn:
-        g = t["events"][0]["got"]
-        answered[g] = answered.get(g, 0) + 1
-        if sum(1 for r in t["events"][1]["r"] if r == "yes") >= 2:
-            contested.add((t["init"]["line"], t["init"]["tls"], tuple(t["init"]["hdrs"])))
-    if not replay:
+    for r in runs.values():
+        for g, n in r["st"]["answered"].items():
+            answered[g] = answered.get(g, 0) + n
+        contested |= r["st"]["contested"]
+    if not replay and not chk.violations:        # guards against a vacuous PASS (violations found are reported as such)
         never = [p for p in shipped if not answered.get(p)]
         if never:
             raise core.MachineryError("C02 vacuous: shipped protocols never detected on any case: %s" % never)
         if not contested:
             raise core.MachineryError("C02 vacuous: no case was claimed by two protocols")
-        slurped = sum(1 for t in conn if t["events"][0]["pos"] > 0)
-        if not slurped:
+        if not sum(r["st"]["slurped"] for r in runs.values()):
             raise core.MachineryError("C02 vacuous: no detection consumed a header line (WAP slurp never exercised)")
         peeks = sum(1 for t in sn["traces"] for e in t["events"] if e["ev"] == "recv")
         wraps = sum(1 for t in sn["traces"] for e in t["events"] if e["ev"] == "wrapcall")
@@ -606,18 +627,17 @@ def _main(chk, replay=None):
             raise core.MachineryError("C02 vacuous: recording socket/context never exercised (recv=%d wrap=%d)" % (peeks, wraps))
     states = sum(r["res"]["distinct"] for r in runs.values()) + (sn["res"]["distinct"] if sn else 0)
     gen = sum(r["res"]["generated"] for r in runs.values()) + (sn["res"]["generated"] if sn else 0)
-    accepted = sum(r["tv"]["accepted"] for r in runs.values()) + (sn["tv"]["accepted"] if sn else 0)
-    rejected = sum(len(r["tv"]["rejected"]) for r in runs.values()) + (len(sn["tv"]["rejected"]) if sn else 0)
-    zero = sorted(k for r in list(runs.values()) + ([sn] if sn else []) for k, v in r["res"].get("coverage", {}).items() if v[0] == 0)
-    samples = [{"id": t["id"], "init": t["init"], "bytes": t["x"]["bytes"], "events": t["events"]}
-               for t in (conn[:1] + conn[len(conn) // 2:len(conn) // 2 + 2])]
+    accepted = sum(r["st"]["accepted"] for r in runs.values()) + (sn["tv"]["accepted"] if sn else 0)
+    rejected = sum(r["st"]["rejected"] for r in runs.values()) + (len(sn["tv"]["rejected"]) if sn else 0)
+    zero = sorted(k for k, v in (sn["res"].get("coverage", {}) if sn else {}).items() if v[0] == 0)
+    samples = [x for r in runs.values() for x in r["st"]["samples"]]
     if sn:
         samples += [{"id": t["id"], "init": t["init"], "events": t["events"]} for t in sn["traces"][22 * 3 + 2:22 * 3 + 3] + sn["traces"][-1:]]
     nl = {n: len(c["lists"]) for n, c in cfgs.items()}
     cov = {
         "states": states, "transitions": gen, "exhaustive": True,
         "traces_validated_against_impl": accepted, "traces_rejected": rejected,
-        "evaluations": sum(len(r["traces"]) * (2 + len(r["listed"]) + nl[n] - 1) for n, r in runs.items())
+        "evaluations": sum(r["st"]["traces"] * (2 + len(r["listed"]) + nl[n] - 1) for n, r in runs.items())
         + (len(sn["traces"]) if sn else 0),
         "distinct_nontrivial": len(contested),
         "rule": "evaluations = real getProtocol / wrap_socket calls; non-trivial = distinct abstract cases (line, TLS?, "
@@ -627,8 +647,9 @@ def _main(chk, replay=None):
         "protocol_lists": nl, "representative_sets": reps,
         "answered_by": answered, "sniff_cases": sn["cases"] if sn else 0,
         "samples": samples,
-        "checker_cmd": " ; ".join([r["res"]["cmd"] for r in runs.values()] + ([sn["res"]["cmd"], sn["tv"]["cmd"]] if sn else [])),
-        "trace_states": sum(r["tv"]["states"] for r in runs.values()) + (sn["tv"]["states"] if sn else 0),
+        "checker_cmd": " ; ".join([r["res"]["cmd"] for r in runs.values()] + [r["st"]["tv_cmd"] for r in list(runs.values())[:1]]
+                                  + ([sn["res"]["cmd"]] if sn else [])),
+        "trace_states": sum(r["st"]["trace_states"] for r in runs.values()) + (sn["tv"]["states"] if sn else 0),
         "model_coverage_zero": zero, "timing": {n: r["timing"] for n, r in runs.items()},
         "constants_bound": bound, "shipped": shipped, "waptop": waptop, "model_follows_unrepaired_gopherplus": raises,
         "bindings": ["B1 shipped order + waptop from conf/pygopherd.conf", "B2 every TLC-enumerated case replayed through the real "
@@ -650,6 +671,16 @@ def _main(chk, replay=None):
 def selftest():
     """Binding demonstration: a recorded trace is accepted; the same trace with one corrupted field, or with one
     event dropped, is rejected by TraceC02."""
+    global _ROOT
+    import shutil
+    _ROOT = tlc.new_scratch("c02root")
+    try:
+        return _selftest()
+    finally:
+        shutil.rmtree(_ROOT, ignore_errors=True)
+
+
+def _selftest():
     shipped, conf_exprs, waptop, _ = read_conf()
     c = configs("quick", shipped)["main"]
     consts_text, listed = consts_module(c, shipped, waptop, False)
